@@ -162,6 +162,26 @@ TABLES = {
    ("", "output_result_bson_hex", None, W, "bson hex writer"),
    ("", "output_result_bson_base64", None, W, "bson base64 writer"),
    ("", "output_result_debug", None, W, "debug writer"),
+   ("", "output_result_xml", None, W, "xml writer"),
+   ("output_result_xml", "json_to_xml", None, W, "json -> xml conversion (element per key, text per scalar)"),
+  ]},
+ "C17": {"provenance": "the packet reader and codecs are the reference point of every parser; their bodies are pinned after the INV-CURSOR / decoder-contract proofs (C17 D1-D5) and review against the VarInt definition of wiki.vg",
+  "fns": [
+   ("buffer", "move_cursor", None, W, "cursor move with range check"),
+   ("buffer", "read", "Buffer<B>>", W, "fixed-width read"),
+   ("buffer", "read_string", None, W, "string read"),
+   ("buffer", "switch_endian_chunk", None, W, "endian switch"),
+   ("buffer", "remaining_length", None, W, "remaining length"),
+   ("buffer", "remaining_bytes", None, W, "remaining bytes"),
+   ("buffer", "decode_string", "Utf8Decoder as", W, "UTF-8 delimiter-terminated"),
+   ("buffer", "decode_string", "Utf8LengthPrefixedDecoder", W, "UTF-8 length-prefixed"),
+   ("buffer", "decode_string", "Utf16Decoder", W, "UTF-16"),
+   ("games::minecraft::types", "get_varint", None, W, "VarInt decoder"),
+   ("games::minecraft::types", "as_varint", None, W, "VarInt encoder"),
+   ("games::minecraft::types", "get_string", None, W, "string decoder"),
+   ("games::minecraft::types", "as_string", None, W, "string encoder"),
+   ("utils", "u8_lower_upper", None, W, "nibble split"),
+   ("utils", "error_by_expected_size", None, W, "declared-length check"),
   ]},
  "C14": {"provenance": "generic dispatcher: per protocol arm the callee and exactly which of (socket_addr built from the definition's default port | raw address, port | definition request settings | caller extra settings | defaults) it passes; pinned tree reviewed against the per-game wrappers",
   "fns": [
